@@ -6,7 +6,7 @@ from .sessioncheck import SessionCheck
 
 class C02(SessionCheck):
     pid = "C02"
-    inst_kwargs = dict(allow_empty_jobs=True)
+    inst_kwargs = dict(allow_empty_jobs=True, huge=True)
     gen_kwargs = dict(p_invalid=0.1, p_query=0.25, p_reset=0.05, p_snapshot=1.0, p_obs=0.03,
                       start_observers_choices=[0], obs_kinds=(0, 2, 3), p_env=0.15)
     assumptions = ["valid instance: durations >= 0", "requests name operations of the dispatcher's own instance"]
